@@ -28,9 +28,18 @@ class Tokenizer:
         self.token = self.loop.target.id
         need(isinstance(self.loop.iter, ast.Name), "token loop does not iterate a named iterator", fi, self.loop)
         self.iter_name = self.loop.iter.id
-        need(len(self.loop.body) == 1 and isinstance(self.loop.body[0], ast.If), "token loop body is not a single if/elif dispatch chain", fi, self.loop)
+        # guard clauses in front of the dispatch (`if <test>: ...; continue`) are branches of the same chain
+        def fold(stmts):
+            if len(stmts) > 1 and isinstance(stmts[0], ast.If) and not stmts[0].orelse and stmts[0].body and isinstance(stmts[0].body[-1], ast.Continue):
+                head = stmts[0]
+                rest = fold(stmts[1:])
+                new = ast.If(test=head.test, body=head.body[:-1] or [ast.Pass()], orelse=rest)
+                return [ast.copy_location(new, head)]
+            return stmts
+        body0 = fold(list(self.loop.body))
+        need(len(body0) == 1 and isinstance(body0[0], ast.If), "token loop body is not a single if/elif dispatch chain", fi, self.loop)
         self.branches = []      # (test or None, body statements, If node)
-        node = self.loop.body[0]
+        node = body0[0]
         while True:
             self.branches.append((node.test, node.body, node))
             if len(node.orelse) == 1 and isinstance(node.orelse[0], ast.If):
@@ -466,6 +475,14 @@ def _descriptor_rules(T, bb, darm, dnode):
         return obs
     # the descriptor text: kind char + everything up to ']'
     tdefs = [d for d in fl.reaching(text_name, cfg.owner[id(ap)]) if d.kind != "unbound"]
+    # a plain copy (text = collected) is followed to the variable the text was collected in
+    for _hop in range(3):
+        if len(tdefs) == 1 and tdefs[0].kind == "assign" and isinstance(tdefs[0].value, ast.Name) and tdefs[0].value.id != T.peek_var and \
+                tdefs[0].value.id in fl.locals and not tdefs[0].path:
+            text_name = tdefs[0].value.id
+            tdefs = [d for d in fl.reaching(text_name, tdefs[0].node) if d.kind != "unbound"]
+        else:
+            break
     init_ok = any(d.kind == "assign" and isinstance(d.value, ast.Name) and d.value.id == T.peek_var for d in tdefs)
     acc_ok = False
     for d in tdefs:
